@@ -21,7 +21,8 @@
      holds in every reachable state; (ii) the same frame / stability argument for wire declarations, assigns and
      instance creation, and for the definitions other than the one being read; (iii) the induction over the modules
      of a document (forward references, never-declared modules) and the positional maps deferred to the end of the file.
-   Character-level tokenisation and the recursive descent from tokens to the document value are not modelled. *)
+   Character level: the tokenizer (TokenFactory, VerilogTokenizer) is modelled in Fmt/VLex.v - theorems C06_lex_* in the
+   last section of this file. The recursive descent from tokens to the document value is not modelled. *)
 From Coq Require Import String.
 From Coq Require Import List ZArith Bool Permutation Lia.
 From SV Require Import Base.Base Fmt.VBits Fmt.VExpr Fmt.VDoc Fmt.VTop Fmt.VElab Fmt.VSpec Fmt.VSem
